@@ -367,6 +367,50 @@ fn pristine(vm: &VM) -> Result<(), String> {
     Ok(())
 }
 
+/// everything the driver takes from the assembler's context, in a fixed order
+fn ctx_summary(ctx: &mut PreprocessorContext) -> String {
+    let mut und: Vec<(usize, String)> = ctx.undefined_labels.iter().cloned().collect();
+    und.sort();
+    let mut labels: Vec<String> = ctx.label_map.iter().map(|(k, l)| format!("{}={:?}@{}>{}", k, l.r#type, l.source_position, l.map)).collect();
+    labels.sort();
+    let mut fns: Vec<String> = ctx.fn_map.iter().map(|(k, v)| format!("{}={}", k, v)).collect();
+    fns.sort();
+    let mut macros: Vec<String> = ctx.macro_map.iter().map(|(k, v)| format!("{}={}", k, v)).collect();
+    macros.sort();
+    let mut nest: Vec<String> = ctx.macro_nesting_counter.iter().cloned().collect();
+    nest.sort();
+    let mut map: Vec<(usize, usize)> = std::mem::take(&mut ctx.mapper).get_source_map().into_iter().collect();
+    map.sort();
+    format!("undefined{:?} labels{:?} procedures{:?} macros{:?} nesting{:?} data_counter={} source_map{:?}", und, labels, fns, macros, nest, ctx.data_counter, map)
+}
+
+/// a line index that has answered other questions must answer like a fresh one: every position
+/// of the text is asked of one helper (in three orders) and of a helper made for that question
+fn lexer_helper_used_vs_fresh(text: &str) -> String {
+    use emulator_8086_lib::LexerHelper;
+    if text.is_empty() || text.len() > 4096 {
+        return String::new();
+    }
+    let used = LexerHelper::new(text);
+    let n = text.len() + 1;
+    let mut order: Vec<usize> = (0..n).collect();
+    order.extend((0..n).rev());
+    let stride = 7usize;
+    order.extend((0..n).map(|i| (i * stride) % n));
+    let mut diffs = Vec::new();
+    for p in order {
+        let a = used.get_line(p);
+        let b = LexerHelper::new(text).get_line(p);
+        if a != b {
+            diffs.push(format!("pos {}: used {:?} fresh {:?}", p, a, b));
+            if diffs.len() >= 3 {
+                break;
+            }
+        }
+    }
+    diffs.join("; ")
+}
+
 /// result of parsing one line through a set of parser objects, as a comparable string
 fn poison(p: &Parsers, text: &str) -> String {
     let r = std::panic::catch_unwind(std::panic::AssertUnwindSafe(|| {
@@ -391,11 +435,12 @@ fn poison(p: &Parsers, text: &str) -> String {
         if let Some(pc) = prev {
             sim_io::install(pc);
         }
-        let d = p.assemble(text, |r, _ctx, out| match r {
-            Ok(_) => format!("ok {:?}", out),
+        let d = p.assemble(text, |r, ctx, out| match r {
+            Ok(_) => format!("ok {:?} {}", out, ctx_summary(ctx)),
             Err(e) => format!("err {}", e),
         });
-        format!("I[{}] D[{}] P[{}] A[{}] regs{:?} mem{:016x}", a, b, c, d, regs_of(&vm), fnv1a(&vm.mem[..]))
+        let e = lexer_helper_used_vs_fresh(text);
+        format!("I[{}] D[{}] P[{}] A[{}] L[{}] regs{:?} mem{:016x}", a, b, c, d, e, regs_of(&vm), fnv1a(&vm.mem[..]))
     }));
     match r {
         Ok(s) => s,
@@ -518,7 +563,26 @@ fn apply_inject(inj: &Inject, shared: &Parsers, scratch: &mut Vec<VM>, viols: &m
         Inject::PoisonLine(t) => {
             st.poison += 1;
             let used = poison(shared, t);
-            let fresh = poison(&Parsers::new(), t);
+            // the reference: fresh objects on a thread that has never run anything
+            let t2 = t.clone();
+            let fresh = std::thread::Builder::new()
+                .stack_size(64 << 20)
+                .spawn(move || {
+                    crate::world::install_panic_hook();
+                    poison(&Parsers::new(), &t2)
+                })
+                .ok()
+                .and_then(|h| h.join().ok())
+                .unwrap_or_else(|| "the fresh thread could not run".to_owned());
+            if let Some(at) = used.rfind(" L[") {
+                let l = &used[at + 3..];
+                if !l.starts_with(']') {
+                    viols.push(Violation::new(
+                        "C19:line_index_history_dependent",
+                        format!("a LexerHelper that has answered other positions places a position differently than a fresh one: {}", &l[..l.find(']').unwrap_or(l.len())]),
+                    ));
+                }
+            }
             if used != fresh {
                 viols.push(Violation::new(
                     "C19:parser_history_dependent",
